@@ -216,6 +216,14 @@ impl Iv {
         b.trace.push(name.into());
         Ok(())
     }
+    fn output(&mut self, name: &str) -> Result<(), RadioError> {
+        let mut b = self.0.borrow_mut();
+        if b.trace.len() > 4000 {
+            std::panic::panic_any("EVENT-BUDGET");
+        }
+        b.trace.push(name.into());
+        Ok(())
+    }
 }
 pub struct PendingForever;
 impl Future for PendingForever {
@@ -225,8 +233,9 @@ impl Future for PendingForever {
     }
 }
 impl InterfaceVariant for Iv {
+    // the reset and RF-switch lines are plain outputs: the fault model is SPI / BUSY / IRQ (they neither fail nor count as a position)
     async fn reset(&mut self, _delay: &mut impl lora_phy::DelayNs) -> Result<(), RadioError> {
-        self.call("RESET")
+        self.output("RESET")
     }
     async fn wait_on_busy(&mut self) -> Result<(), RadioError> {
         self.call("BUSY")
@@ -262,13 +271,13 @@ impl InterfaceVariant for Iv {
         self.call("IRQ")
     }
     async fn enable_rf_switch_rx(&mut self) -> Result<(), RadioError> {
-        self.call("SWRX")
+        self.output("SWRX")
     }
     async fn enable_rf_switch_tx(&mut self) -> Result<(), RadioError> {
-        self.call("SWTX")
+        self.output("SWTX")
     }
     async fn disable_rf_switch(&mut self) -> Result<(), RadioError> {
-        self.call("SWOFF")
+        self.output("SWOFF")
     }
 }
 
